@@ -413,16 +413,29 @@ func (s *Stack) do(p *Proc, method, path string, hdr map[string]string, body []b
 	if p != nil && p.Env["AWS_LAMBDA_RUNTIME_API"] != "" {
 		api = p.Env["AWS_LAMBDA_RUNTIME_API"]
 	}
+	// "X-Verif-Slow-Body: <name>" (a directive to the driver, not sent): the headers and the first half of the body
+	// go out at once, the rest only after the driver-side pause point drv.body:<name> has been passed; with
+	// "X-Verif-Detached" the connection is not tied to the life of the sending process (a helper that outlives it)
+	slow, isSlow := hdr["X-Verif-Slow-Body"]
+	if isSlow && body != nil {
+		rd = &slowBody{data: body, half: len(body) / 2, at: func() { s.Gates.at("drv.body:" + slow) }}
+	}
 	req, err := http.NewRequest(method, "http://"+api+path, rd)
 	if err != nil {
 		return CallResult{NetErr: err.Error()}
 	}
-	if p != nil {
+	if isSlow && body != nil {
+		req.ContentLength = int64(len(body))
+	}
+	if p != nil && !(isSlow && hdr["X-Verif-Detached"] != "") {
 		req = req.WithContext(p.ctx)
 	} else {
 		req = req.WithContext(s.ctx)
 	}
 	for k, v := range hdr {
+		if k == "X-Verif-Slow-Body" || k == "X-Verif-Detached" {
+			continue
+		}
 		req.Header.Set(k, v)
 	}
 	resp, err := s.HTTP.Do(req)
@@ -444,6 +457,31 @@ func (s *Stack) do(p *Proc, method, path string, hdr map[string]string, body []b
 		}
 	}
 	return res
+}
+
+// slowBody delivers the first half of a request body, passes a pause point of the driver, then delivers the rest.
+type slowBody struct {
+	data   []byte
+	half   int
+	pos    int
+	paused bool
+	at     func()
+}
+
+func (b *slowBody) Read(p []byte) (int, error) {
+	if b.pos >= len(b.data) {
+		return 0, io.EOF
+	}
+	end := len(b.data)
+	if b.pos < b.half {
+		end = b.half
+	} else if !b.paused {
+		b.paused = true
+		b.at()
+	}
+	n := copy(p, b.data[b.pos:end])
+	b.pos += n
+	return n, nil
 }
 
 func actorOf(p *Proc, fallback string) string {
@@ -563,7 +601,8 @@ func (s *Stack) RtResponse(p *Proc, who, idClass string, body []byte, hdr map[st
 	a := actorOf(p, who)
 	id := s.ResolveID(idClass)
 	lbl := s.noteBody(body, "")
-	cid := s.Rec.Emit(a, "RespCall", "who", a, "gen", gen(p), "id", idClass, "reqid", id, "size", len(body), "body", lbl)
+	cid := s.Rec.Emit(a, "RespCall", "who", a, "gen", gen(p), "id", idClass, "reqid", id, "size", len(body), "body", lbl,
+		"slow", hdr["X-Verif-Slow-Body"])
 	r := s.do(p, "POST", "/2018-06-01/runtime/invocation/"+id+"/response", hdr, body)
 	s.Rec.Emit(a, "RespRet", "cid", cid, "who", a, "gen", gen(p), "id", idClass, "reqid", id, "status", r.Status, "errType", r.ErrType, "net", r.NetErr)
 	return r
@@ -580,7 +619,8 @@ func (s *Stack) RtError(p *Proc, who, idClass, errType string, body []byte, hdr 
 		h["Lambda-Runtime-Function-Error-Type"] = errType
 	}
 	lbl := s.noteBody(body, "")
-	cid := s.Rec.Emit(a, "ErrCall", "who", a, "gen", gen(p), "id", idClass, "reqid", id, "size", len(body), "errType", errType, "body", lbl)
+	cid := s.Rec.Emit(a, "ErrCall", "who", a, "gen", gen(p), "id", idClass, "reqid", id, "size", len(body), "errType", errType, "body", lbl,
+		"slow", hdr["X-Verif-Slow-Body"])
 	r := s.do(p, "POST", "/2018-06-01/runtime/invocation/"+id+"/error", h, body)
 	s.Rec.Emit(a, "ErrRet", "cid", cid, "who", a, "gen", gen(p), "id", idClass, "reqid", id, "status", r.Status, "errType", r.ErrType, "net", r.NetErr)
 	return r
